@@ -5,7 +5,7 @@ from harness.core import import_param
 
 param = import_param()
 
-VAL = {"lempty": [], "l1": [1], "ls": ["s"], "t2": (0, 0), "t3": (1, 2, 3), "None": None, "0": 0, "0.0": 0.0, "1": 1, "5": 5, "1.5": 1.5, "s": "s", "": "", "T": True, "F": False,
+VAL = {"lempty": [], "l1": [1], "ls": ["s"], "t2": (0, 0), "t3": (1, 2, 3), "None": None, "0": 0, "0.0": 0.0, "1": 1, "5": 5, "1.5": 1.5, "s": "s", "o": "o", "": "", "T": True, "F": False,
        "b02": (0, 2), "b46": (4, 6), "d1": "d1", "d2": "d2"}
 BASES = {"chain": {"A": [], "B": ["A"], "C": ["B"]}, "skip": {"A": [], "B": ["A"], "C": ["B"]},
          "diamondBC": {"A": [], "B": ["A"], "C": ["A"], "D": ["B", "C"]},
@@ -20,7 +20,9 @@ NMETA = {"n1": dict(step=2, softbounds=(0, 9)), "None": dict(step=None, softboun
 
 def make_param(d):
     kw = {}
-    if d["default"] != "U":
+    if d["ty"] == "Selector":
+        kw["objects"] = ["s", "o"]
+    if d["default"] != "U" and not (d["ty"] == "Selector" and d["default"] == "s"):      # (the first object: left to the constructor)
         kw["default"] = VAL[d["default"]]
     if d["bounds"] != "U" and d["ty"] in ("Number", "Integer"):
         kw["bounds"] = VAL[d["bounds"]]
